@@ -5,8 +5,6 @@ import (
 	"compress/flate"
 	"crypto"
 	"crypto/rsa"
-	"crypto/sha1"
-	"encoding/hex"
 	"crypto/x509"
 	"encoding/base64"
 	"encoding/xml"
@@ -103,24 +101,23 @@ func (e mEndpoint) term() string {
 	return fmt.Sprintf("{| ep_binding := %s; ep_location := %s; ep_index := %s; ep_default := %s |}",
 		emit.Str(e.Binding), emit.Str(e.Location), emit.Z(int64(e.Index)), optBool(e.Default))
 }
-// certAlias shortens long certificate strings in the Gallina terms: the model
-// only tests certificate strings for emptiness and looks them up in the
-// certificate table, so an injective, non-empty alias is equivalent and keeps
-// the case files small.
-func certAlias(s string) string {
-	if len(s) <= 48 {
-		return s
-	}
-	h := sha1.Sum([]byte(s))
-	return "cert#" + hex.EncodeToString(h[:6])
+
+// stripWS removes what Go's regexp class \s matches: [\t\n\f\r ].
+func stripWS(s string) string {
+	return strings.Map(func(r rune) rune {
+		switch r {
+		case '\t', '\n', '\f', '\r', ' ':
+			return -1
+		}
+		return r
+	}, s)
 }
 
+// certificate strings go into the Gallina terms verbatim (white space and all):
+// the model strips the white space itself and then looks the result up in the
+// certificate table.
 func (k mKeyDesc) term() string {
-	cs := make([]string, len(k.Certs))
-	for i, c := range k.Certs {
-		cs[i] = certAlias(c)
-	}
-	return fmt.Sprintf("{| kd_use := %s; kd_certs := %s |}", emit.Str(k.Use), emit.StrList(cs))
+	return fmt.Sprintf("{| kd_use := %s; kd_certs := %s |}", emit.Str(k.Use), emit.StrList(k.Certs))
 }
 func (r mReqAttr) term() string {
 	return fmt.Sprintf("{| ra_friendly := %s; ra_name := %s; ra_format := %s |}", emit.Str(r.Friendly), emit.Str(r.Name), emit.Str(r.Format))
@@ -253,7 +250,7 @@ func (p stubSessions) GetSession(http.ResponseWriter, *http.Request, *saml.IdpAu
 // key pairs by identifier
 var keyNames = map[int64]string{1: "rsa_a", 2: "rsa_b", 3: "rsa_c"}
 
-func keyOf(id int64) *rsa.PrivateKey { return fix.RSAKey(keyNames[id]) }
+func keyOf(id int64) *rsa.PrivateKey    { return fix.RSAKey(keyNames[id]) }
 func certOf(id int64) *x509.Certificate { return fix.Cert(keyNames[id]) }
 
 func mustURL(s string) url.URL {
